@@ -357,36 +357,63 @@ func locateEnc(t reflect.Type, v reflect.Value, ref, act *oracle.Node, chain []s
 			return &locRes{"missing-member", ctxOf(append(chain, "member"))}
 		}
 	}
+	// Same multiset of names. Pair the members up: by position when the name sequences agree and
+	// no name repeats; otherwise (a name repeats - distinct Go keys that become equal once invalid
+	// bytes are replaced by U+FFFD) by name and then by equal subtree, so that a mere reordering
+	// of members is reported as what it is and not as a difference between unrelated values.
+	reordered := false
 	for i := range ref.Keys {
 		if ref.Keys[i] != act.Keys[i] {
-			// same multiset, different order
-			kind := "order:other"
-			for variant := 0; variant < 4; variant++ {
-				html, fffd := variant&1 == 0, variant&2 != 0
-				ks := append([]string{}, ref.Keys...)
-				esc := func(k string) string {
-					e := escapedForm(k, html)
-					if fffd {
-						// the tree holds decoded keys: an invalid byte of the Go key is U+FFFD here,
-						// which go-json writes as the six-character escape
-						e = strings.ReplaceAll(e, "\uFFFD", `\ufffd`)
-					}
-					return e
-				}
-				sort.SliceStable(ks, func(a, b int) bool { return esc(ks[a]) < esc(ks[b]) })
-				same := true
-				for j := range ks {
-					if ks[j] != act.Keys[j] {
-						same = false
-						break
-					}
-				}
-				if same {
-					kind = "order:by-escaped-key"
+			reordered = true
+			break
+		}
+	}
+	dup := false
+	for _, n := range rs {
+		if n > 1 {
+			dup = true
+		}
+	}
+	if dup && !reordered {
+		used := make([]bool, len(act.Kids))
+		perm := make([]int, len(ref.Kids))
+		ok := true
+		for i := range ref.Kids {
+			perm[i] = -1
+			for j := range act.Kids {
+				if !used[j] && act.Keys[j] == ref.Keys[i] && oracle.Equal(ref.Kids[i], act.Kids[j]) {
+					used[j], perm[i] = true, j
+					break
 				}
 			}
-			return &locRes{kind, ctxOf(chain)}
+			if perm[i] < 0 {
+				ok = false
+				break
+			}
+			if perm[i] != i {
+				reordered = true
+			}
 		}
+		if !ok {
+			reordered = false // some member really differs: fall through to the positional walk
+		}
+	}
+	if reordered {
+		// go-json's order is explained when its members are sorted by their names as written,
+		// i.e. escapes and closing quote included (names written alike in any order)
+		kind := "order:by-escaped-key"
+		for j := 1; j < len(act.RawKeys); j++ {
+			// (the closing quote takes part: go-json compares the written bytes, so "a b" sorts
+			// before "a")
+			if act.RawKeys[j-1]+`"` > act.RawKeys[j]+`"` {
+				kind = "order:other"
+				break
+			}
+		}
+		if len(act.RawKeys) != len(act.Keys) {
+			kind = "order:other"
+		}
+		return &locRes{kind, ctxOf(chain)}
 	}
 	for i, k := range ref.Keys {
 		var ev reflect.Value
